@@ -183,6 +183,11 @@ func c07Worker(w *core.WorkerCtx) {
 	if w.Batch == 0 {
 		c07Witness(w)
 	}
+	if w.Batch == 1 {
+		// "leaves later transfers validated against the same funds as before", also for the transfer that is
+		// validated while the truncation runs
+		c01TruncationRace(w, []string{"C07"})
+	}
 	n := w.Pick(1, 3)
 	for k := 0; k < n; k++ {
 		longScenario(w, []string{"C07"}, k, c07Opts(w, k))
